@@ -18,8 +18,8 @@ theorem pick_pick (given : Option Name) (d : Enc × Bool) :
   | some g => cases d.2 <;> simp
 
 /-- re-detecting with the encoding assigned by an earlier call gives the same encoding -/
-theorem choose_ok (given : Option Name) (force : Bool) (a x : List Nat) (enc : Option Name)
-    (h : EncOk given force a enc) : choose enc force (a ++ x) = choose given force (a ++ x) := by
+theorem readerEnc_ok (given : Option Name) (force : Bool) (a x : List Nat) (enc : Option Name)
+    (h : EncOk given force a enc) : readerEnc enc force (a ++ x) = readerEnc given force (a ++ x) := by
   rcases h with h | ⟨hgf, d, hd, he⟩
   · rw [h]
   · have hd' := detect_stable a x false d hd
@@ -29,15 +29,15 @@ theorem choose_ok (given : Option Name) (force : Bool) (a x : List Nat) (enc : O
       rcases hgf with h | h
       · cases h
       · subst h
-        simp [choose, hd']
+        simp [readerEnc, hd']
     | false =>
       cases given with
-      | none => simp only [choose, hd', Option.map_some]; rw [pick_pick]
-      | some g => simp only [choose, hd', Option.map_some]; rw [pick_pick]
+      | none => simp only [readerEnc, hd', Option.map_some]; rw [pick_pick]
+      | some g => simp only [readerEnc, hd', Option.map_some]; rw [pick_pick]
 
-theorem choose_next (given : Option Name) (force : Bool) (a : List Nat) (E : Name)
-    (h : choose given force a = some E) : EncOk given force a (some E) := by
-  unfold choose at h
+theorem readerEnc_next (given : Option Name) (force : Bool) (a : List Nat) (E : Name)
+    (h : readerEnc given force a = some E) : EncOk given force a (some E) := by
+  unfold readerEnc at h
   cases given with
   | none =>
     cases hd : detect a false with
@@ -56,9 +56,9 @@ theorem choose_next (given : Option Name) (force : Bool) (a : List Nat) (E : Nam
         simp [hd] at h; rw [h]
 
 /-- once the reader has settled on an encoding, it is the one one-shot `decode` uses for any continuation -/
-theorem choose_final (given : Option Name) (force : Bool) (a : List Nat) (E : Name)
-    (h : choose given force a = some E) (ext : List Nat) : finalEnc given force (a ++ ext) = E := by
-  unfold choose at h
+theorem readerEnc_final (given : Option Name) (force : Bool) (a : List Nat) (E : Name)
+    (h : readerEnc given force a = some E) (ext : List Nat) : finalEnc given force (a ++ ext) = E := by
+  unfold readerEnc at h
   unfold finalEnc
   cases given with
   | none =>
@@ -77,9 +77,9 @@ theorem choose_final (given : Option Name) (force : Bool) (a : List Nat) (E : Na
         have := detectFinal_of_early a ext d hd
         simp [hd] at h; simp [this, h]
 
-theorem choose_stable (given : Option Name) (force : Bool) (a x : List Nat) (E : Name)
-    (h : choose given force a = some E) : choose given force (a ++ x) = some E := by
-  unfold choose at *
+theorem readerEnc_stable (given : Option Name) (force : Bool) (a x : List Nat) (E : Name)
+    (h : readerEnc given force a = some E) : readerEnc given force (a ++ x) = some E := by
+  unfold readerEnc at *
   cases given with
   | none =>
     cases hd : detect a false with
@@ -105,7 +105,7 @@ theorem EncOk_mono (given : Option Name) (force : Bool) (a x : List Nat) (enc : 
 
 def RInv (I : Inner) (given : Option Name) (force : Bool) (a em : List Nat) : RSt → Prop
   | .waiting enc bb => bb = a ∧ em = [] ∧ EncOk given force a enc ∧ RUnd I given force a
-  | .reading E c => c = a ∧ choose given force a = some E ∧
+  | .reading E c => c = a ∧ readerEnc given force a = some E ∧
       (∀ ext, fixFinal (I.out E a false ++ ext) E = em ++ ext)
 
 theorem fix_nil (g : List Nat) : fixEncoding [] g false = none := by
@@ -113,7 +113,7 @@ theorem fix_nil (g : List Nat) : fixEncoding [] g false = none := by
 
 theorem rinv_init (I : Inner) (given : Option Name) (force : Bool) : RInv I given force [] [] (.waiting given []) := by
   refine ⟨rfl, rfl, Or.inl rfl, ?_⟩
-  unfold RUnd choose
+  unfold RUnd readerEnc
   cases given with
   | none => cases force <;> simp [show detect [] false = none from by decide]
   | some g =>
@@ -127,15 +127,15 @@ theorem rstep_inv (I : Inner) (given : Option Name) (force : Bool) (a em x : Lis
   cases s with
   | waiting enc bb =>
     obtain ⟨rfl, rfl, hok, _⟩ := h
-    simp only [rstep, choose_ok given force bb x enc hok]
-    cases hc : choose given force (bb ++ x) with
+    simp only [rstep, readerEnc_ok given force bb x enc hok]
+    cases hc : readerEnc given force (bb ++ x) with
     | none =>
       exact ⟨rfl, rfl, EncOk_mono given force bb x enc hok, by unfold RUnd; rw [hc]; trivial⟩
     | some E =>
       dsimp only
       cases hf : fixEncoding (I.out E (bb ++ x) false) E false with
       | none =>
-        exact ⟨rfl, rfl, choose_next given force _ E hc, by unfold RUnd; rw [hc]; exact hf⟩
+        exact ⟨rfl, rfl, readerEnc_next given force _ E hc, by unfold RUnd; rw [hc]; exact hf⟩
       | some t =>
         dsimp only
         refine ⟨rfl, hc, ?_⟩
@@ -143,7 +143,7 @@ theorem rstep_inv (I : Inner) (given : Option Name) (force : Bool) (a em x : Lis
   | reading E c =>
     obtain ⟨rfl, hE, hfx⟩ := h
     simp only [rstep]
-    refine ⟨rfl, choose_stable given force c x E hE, ?_⟩
+    refine ⟨rfl, readerEnc_stable given force c x E hE, ?_⟩
     intro ext
     rw [feedInner_spec I E c x false, List.append_assoc, hfx, List.append_assoc]
 
@@ -173,7 +173,7 @@ theorem readAll_prefix (I : Inner) (given : Option Name) (force : Bool) (cs : Li
   | reading E c =>
     rw [hs] at h
     obtain ⟨_, hE, hfx⟩ := h
-    have hE0 : finalEnc given force cs.flatten = E := by simpa using choose_final given force _ E hE []
+    have hE0 : finalEnc given force cs.flatten = E := by simpa using readerEnc_final given force _ E hE []
     obtain ⟨ext, hm⟩ := I.mono E cs.flatten [] true
     simp only [List.append_nil] at hm
     refine ⟨ext, ?_⟩
@@ -198,7 +198,7 @@ theorem readAll_complete (I : Inner) (given : Option Name) (force : Bool) (cs : 
   | reading E c =>
     rw [hs] at h
     obtain ⟨_, hE, hfx⟩ := h
-    have hE0 : finalEnc given force cs.flatten = E := by simpa using choose_final given force _ E hE []
+    have hE0 : finalEnc given force cs.flatten = E := by simpa using readerEnc_final given force _ E hE []
     unfold oneShot
     rw [hpend, hE0]
     have := hfx []
